@@ -64,7 +64,29 @@ def equal_ranges(rng):
     return s
 
 
+def creeping_extrema(rng):
+    """reversals approached by tiny non-zero steps (1e-12 .. 1e-7): consecutive samples that are almost, but not exactly,
+    equal - as in a finely sampled smooth signal near its crests"""
+    base = small_alphabet(rng, n=int(rng.integers(3, 12)), k=int(rng.integers(3, 8)))
+    out = []
+    for v in base:
+        out.append(v)
+        if rng.random() < 0.6:
+            d = float(10 ** rng.uniform(-12, -7)) * (1 if rng.random() < 0.5 else -1)
+            k = int(rng.integers(1, 4))
+            for j in range(1, k + 1):
+                out.append(v + j * d)
+    return out
+
+
+def fine_sine(rng):
+    n = int(rng.integers(200, 1200))
+    t = np.linspace(0, float(rng.uniform(2, 9)) * np.pi, n)
+    return (np.sin(t) * float(rng.uniform(1, 100)) + 0.3 * np.sin(3.1 * t)).tolist()
+
+
 GENERATORS = {
+    "creeping_extrema": creeping_extrema,
     "small_alphabet": small_alphabet,
     "floats": floats,
     "monotone": monotone,
